@@ -114,6 +114,16 @@ def synthetic_schedule(rng):
     return {"text": text, "kind": "synthetic_matmul" + ("+odd-inner" if odd else "") + ("+unit-dims" if unit else ""), "acc": "snax_gemmx", "pre": "insert-accfg-op{accelerator=snax_gemmx}"}
 
 
+def merge_two(t1, t2):
+    """Two single-function modules -> one module with @main and @main2 (whatever the pass remembers from the first operation must
+    not leak into the second)."""
+    b1 = t1.strip().split("\n")
+    b2 = t2.strip().split("\n")
+    assert b1[0].startswith("builtin.module") and b2[0].startswith("builtin.module")
+    inner2 = "\n".join(b2[1:-1]).replace("@main(", "@main2(")
+    return "\n".join(b1[:-1]) + "\n" + inner2 + "\n}\n"
+
+
 def certify(module, case, tiled, res):
     out = []
     for op in module.walk():
@@ -209,6 +219,9 @@ def run_shard(seed, shard, n_cases, tier):
         r = rng.random()
         if r < 0.45:
             case = synthetic_schedule(rng)
+            if rng.random() < 0.15:
+                other = synthetic_schedule(rng)
+                case = {**case, "text": merge_two(case["text"], other["text"]), "kind": case["kind"] + "+second-operation-in-module"}
         elif r < 0.9:
             g = gen_op(rng, layouts=("none", "none", "strided"))
             case = {"text": g["text"], "kind": g["kind"], "acc": g["acc"]}
